@@ -130,9 +130,10 @@ def served (recs : List Rec) (i : Nat) : Nat := recs.countP (fun r => r.weighted
 def healthyThroughout (recs : List Rec) (i : Nat) : Bool := recs.all (fun r => r.healthyAt i)
 
 /-- a host healthy throughout this many consecutive lookups must be served by a weighted pick in them:
-`⌊Σw / wᵢ⌋ + n − 1` (from the lag bound: while `i` waits, host `j` is picked at most `wⱼ/wᵢ + 1` times). -/
+`⌊Σw / wᵢ⌋ + n + 1` (from the lag bound: while `i` waits, every host `j` is picked at most `wⱼ/wᵢ + 1` times, and
+every lookup makes at least one pick). -/
 def serveWindow (ws : List Nat) (i : Nat) : Nat :=
-  (((List.range ws.length).map (fun j => (effW ws j).toNat)).sum) / (effW ws i).toNat + ws.length - 1
+  (((List.range ws.length).map (fun j => (effW ws j).toNat)).sum) / (effW ws i).toNat + ws.length + 1
 
 /-- the statement's inequality for one window and one ordered pair, multiplied by `wᵢ·wⱼ`:
 `nᵢ·wⱼ − nⱼ·wᵢ ≤ wᵢ + wⱼ`. -/
@@ -152,13 +153,16 @@ def windows (recs : List Rec) : List (List Rec) :=
   (List.range (recs.length + 1)).flatMap (fun a =>
     (List.range (recs.length + 1 - a)).map (fun len => (recs.drop a).take len))
 
+/-- `refresh` builds a scheduler exactly for ≥ 2 hosts whose configured weights are not all equal (slow start off). -/
+def expectSched (ws : List Nat) : Bool := decide (2 ≤ ws.length) && !wsEqual ws
+
 /-- what `ChooseHost` owes one lookup: picks are hosts of the set, every pick before the last one was unhealthy; a
 balancer over ≥ 2 hosts with unequal weights makes at least one weighted pick; a lookup whose last pick is healthy
 returns it; otherwise (designed degradation: `total` unhealthy picks in a row) the result is what C05 demands of any
 balancer — a healthy host if there is one, no host only if there is none. -/
 def lookupOk (ws : List Nat) (r : Rec) : Bool :=
   let n := ws.length
-  let expectSched := decide (2 ≤ n) && !wsEqual ws
+  let expectSched := expectSched ws
   r.picks.all (fun x => decide (x < n)) &&
   r.picks.dropLast.all (fun x => !r.healthyAt x) &&
   (!expectSched || !r.picks.isEmpty) &&
@@ -166,7 +170,10 @@ def lookupOk (ws : List Nat) (r : Rec) : Bool :=
    else (!expectSched || r.picks.length == n) &&
         specChoice (mkH ws r.health) r.result)
 
+/-- the predicate on the lookups observed after the balancer was built: every lookup is in order, and — when the
+balancer is a weighted one — every window of consecutive lookups is (equal configured weights build no scheduler: plain
+round robin, nothing is served by a weighted pick). -/
 def specH (ws : List Nat) (recs : List Rec) : Bool :=
-  recs.all (lookupOk ws) && (windows recs).all (windowOk ws)
+  recs.all (lookupOk ws) && (!expectSched ws || (windows recs).all (windowOk ws))
 
 end MosnVerif.Model.WrrHealth
